@@ -1528,6 +1528,13 @@ SoPlexBase<R>& SoPlexBase<R>::operator=(const SoPlexBase<R>& rhs)
       setIntParam(SoPlexBase<R>::SCALER, intParam(SoPlexBase<R>::SCALER), true);
       setIntParam(SoPlexBase<R>::STARTER, intParam(SoPlexBase<R>::STARTER), true);
 
+      // free the old real LP if it was kept outside the solver
+      if(_realLP != &_solver && _realLP != nullptr)
+      {
+         _realLP->~SPxLPBase<R>();
+         spx_free(_realLP);
+      }
+
       // copy real LP if different from the LP in the solver
       if(rhs._realLP != &(rhs._solver))
       {
@@ -1553,6 +1560,13 @@ SoPlexBase<R>& SoPlexBase<R>::operator=(const SoPlexBase<R>& rhs)
       else
       {
          assert(intParam(SoPlexBase<R>::SYNCMODE) != SYNCMODE_ONLYREAL);
+
+         if(_rationalLP != nullptr)
+         {
+            _rationalLP->~SPxLPRational();
+            spx_free(_rationalLP);
+         }
+
          _rationalLP = nullptr;
          spx_alloc(_rationalLP);
          _rationalLP = new(_rationalLP) SPxLPRational(*rhs._rationalLP);
